@@ -2372,7 +2372,16 @@ impl SctpInner {
 
             {
                 let mut received_queue = self.received_queue.lock();
-                received_queue.retain(|&tsn, _| tsn_gt(tsn, new_cumulative_tsn));
+                // The skipped chunks no longer occupy the receive window.
+                let mut skipped = 0usize;
+                received_queue.retain(|&tsn, (_, queued)| {
+                    let keep = tsn_gt(tsn, new_cumulative_tsn);
+                    if !keep {
+                        skipped += queued.len();
+                    }
+                    keep
+                });
+                self.used_rwnd.fetch_sub(skipped, Ordering::Relaxed);
             }
 
             // A message whose fragments were partly skipped can no longer be
